@@ -129,6 +129,42 @@ func (p *Prog) forAllShape(fn *ssa.Function) (over string, ok bool) {
 }
 
 // isDescendingSort: fn sorts its slice parameter with a comparator "x[j] < x[i]".
+// comparatorFn: the function a comparator argument denotes: a function, a closure, or the closure
+// handed back by a product constructor (`sort.SliceStable(x, higherFirst(x))`).
+func (p *Prog) comparatorFn(v ssa.Value, depth int) *ssa.Function {
+	if depth > 3 {
+		return nil
+	}
+	switch f := v.(type) {
+	case *ssa.Function:
+		return f
+	case *ssa.MakeClosure:
+		fn, _ := f.Fn.(*ssa.Function)
+		return fn
+	case *ssa.ChangeType:
+		return p.comparatorFn(f.X, depth+1)
+	case *ssa.Call:
+		cal := p.Callee(f)
+		if cal == nil || !p.IsProduct(cal) {
+			return nil
+		}
+		var out *ssa.Function
+		for _, b := range cal.Blocks {
+			ret, isRet := b.Instrs[len(b.Instrs)-1].(*ssa.Return)
+			if !isRet || len(ret.Results) != 1 {
+				continue
+			}
+			got := p.comparatorFn(ret.Results[0], depth+1)
+			if got == nil || (out != nil && out != got) {
+				return nil
+			}
+			out = got
+		}
+		return out
+	}
+	return nil
+}
+
 func (p *Prog) isDescendingSort(fn *ssa.Function) bool {
 	if fn == nil || len(fn.Params) != 1 {
 		return false
@@ -150,13 +186,7 @@ func (p *Prog) isDescendingSort(fn *ssa.Function) bool {
 			if name == "slices.SortFunc" || name == "slices.SortStableFunc" {
 				// three-way comparator (a, b): descending iff it is cmp.Compare(b, a) or -cmp.Compare(a, b);
 				// a subtraction of converted operands is not accepted (it overflows for large priorities)
-				var cmpFn *ssa.Function
-				switch f := call.Call.Args[1].(type) {
-				case *ssa.Function:
-					cmpFn = f
-				case *ssa.MakeClosure:
-					cmpFn, _ = f.Fn.(*ssa.Function)
-				}
+				cmpFn := p.comparatorFn(call.Call.Args[1], 0)
 				if cmpFn == nil || len(cmpFn.Params) != 2 {
 					continue
 				}
@@ -196,11 +226,10 @@ func (p *Prog) isDescendingSort(fn *ssa.Function) bool {
 			if name != "sort.SliceStable" && name != "sort.Slice" {
 				continue
 			}
-			mc, ok := call.Call.Args[1].(*ssa.MakeClosure)
-			if !ok {
+			less := p.comparatorFn(call.Call.Args[1], 0)
+			if less == nil || len(less.Params) != 2 {
 				continue
 			}
-			less := mc.Fn.(*ssa.Function)
 			for _, s := range p.resultSyms(less, 0) {
 				// (x[j] < x[i])  with i, j the closure parameters in order (i, j)
 				if s.Op != "bin" {
